@@ -831,6 +831,25 @@ func (c *concRun) quiescentChecks() {
 					bySubj[s] = append(bySubj[s], d)
 				}
 			}
+			// the other half: whatever a listing names is a manifest that can be read (an update that was torn between the
+			// index entry and the referrers entry leaves a listed artifact that answers 404)
+			allSubj := map[string]bool{}
+			for _, s := range c.subj[repo] {
+				allSubj[s] = true
+			}
+			for _, s := range sortedKeys(allSubj) {
+				_, descs, ok := w.refPage(repo, s, "")
+				if !ok {
+					continue
+				}
+				for _, d := range descs {
+					r := w.do(reqSpec{method: "HEAD", path: "/v2/" + repo + "/manifests/" + d.Digest, hdr: map[string][]string{"Accept": {mtOCIManifest, mtOCIIndex, mtDockManifest, mtDockList}}, repos: []string{repo}})
+					if r.Code != 200 {
+						w.x.viol([]string{"C11"}, "conc.torn-update", "listed referrer is not a readable manifest", fmt.Sprintf("%s: the referrers of %s list %s, which answers %d once everything is quiet", repo, s, d.Digest, r.Code))
+						return
+					}
+				}
+			}
 			for _, s := range sortedKeys(bySubj) {
 				_, descs, ok := w.refPage(repo, s, "")
 				got := map[string]bool{}
